@@ -70,6 +70,20 @@ Theorem C09_wep_bitflip_with_patched_icv_is_accepted : forall pw i0 i1 i2 kid m 
 Proof. exact wep_bitflip_accepted. Qed.
 Print Assumptions C09_wep_bitflip_with_patched_icv_is_accepted.
 
+(* THE RECORDED FINDING (KNOWN_FINDINGS.txt, C09 TKIP) as a theorem about the faithful model: "reported as decrypted only if
+   the integrity check verifies" is refuted for TKIP -- for EVERY frame and every flip pattern over MSDU and Michael field
+   (so in particular patterns that leave the Michael value stale), the frame patched without any key is accepted.  The
+   check replays exactly this forgery against Crypto::WPA2Decrypter and prints the KNOWN-FINDING line when it is accepted. *)
+Theorem C09_tkip_integrity_refuted : forall ta tk b0 b1 b2 b3 b4 b5 b6 b7 m mic d dm key, m <> [] -> length mic = 8%nat ->
+  Forall (fun x => 0 <= x < 256) (m ++ mic) -> Forall (fun x => 0 <= x < 256) (d ++ dm) ->
+  length m = length d -> length dm = 8%nat ->
+  tkip_key ta tk [b0; b1; b2; b3; b4; b5; b6; b7] = Ok key ->
+  let pt := m ++ mic ++ le32 (crc32 (m ++ mic)) in
+  let ct := xorl (keystream (length pt) (ksa key) 0 0) pt in
+  tkip_decrypt ta tk ([b0; b1; b2; b3; b4; b5; b6; b7] ++ xorl ct ((d ++ dm) ++ le32 (crc_delta (d ++ dm)))) = Ok (Some (xorl m d)).
+Proof. exact tkip_bitflip_accepted. Qed.
+Print Assumptions C09_tkip_integrity_refuted.
+
 (* the handshake capturer: messages 1-3 each possibly retransmitted, then message 4 (then retransmissions of it), after
    whatever was collected before: exactly one completion, at message 4, holding this run's four messages *)
 Theorem C09_handshake_completes : forall e a b c d n1 n2 n3 n4,
